@@ -100,6 +100,16 @@ def property_on_impl(m, maxseg_lambda=None):
         for x, y in ((a, b), (a, c)):
             if max(abs(p - q) for p, q in zip(lin(x['db']), lin(y['db']))) > 1e-9 * mx:
                 return 'rows 360 degrees apart differ at theta=%g' % th
+    # zenith angles 360 degrees apart (also over ground: 377.5 and -342.5 are the upper-hemisphere direction 17.5;
+    # 300 = -60 is the direction (60, phi + 180))
+    zs = [17.5, 377.5, -342.5, 45.0, 405.0, 60.0, 300.0, -60.0]
+    zz = farlib.impl_far(m, zs, [33.0, 213.0])
+    for a, b, pa, pb in ((17.5, 377.5, 33.0, 33.0), (17.5, -342.5, 33.0, 33.0), (45.0, 405.0, 33.0, 33.0), (300.0, -60.0, 33.0, 33.0),
+                         (60.0, -60.0, 213.0, 33.0), (60.0, 300.0, 213.0, 33.0)):
+        x, y = zz[(a, pa)], zz[(b, pb)]
+        if max(abs(p - q) for p, q in zip(lin(x['db']), lin(y['db']))) > 1e-9 * mx:
+            return 'the same direction given as zenith %g / azimuth %g and as zenith %g / azimuth %g has gains %r and %r' % (
+                a, pa, b, pb, [round(t, 4) for t in x['db']], [round(t, 4) for t in y['db']])
     # zenith
     z = [lin(base[(0.0, ph)]['db'])[2] for ph in PHIS]
     if max(z) - min(z) > 1e-9 * mx:
